@@ -59,15 +59,79 @@ Proof.
   intros tr s e s' HI H t' r'. unfold open_claim. rewrite fold_left_app. cbn [fold_left].
   fold (open_claim t' r' tr). specialize (HI t' r'). unfold track.
   step_inv H; norm; try exact HI.
-  all: match goal with Hk : e_k _ = _ |- _ => rewrite Hk end.
   all: heap_cases; tproj; try exact HI.
-  all: try match goal with Hx : nget (targets s) _ = Some _ |- _ => rewrite Hx in HI end; try exact HI.
+  all: try match goal with Hx : nget (targets _) _ = Some _ |- _ => rewrite Hx in HI end; try exact HI.
   - (* KLbNew *) rewrite add_new_get. destruct (nmem t' ts) eqn:E; [|exact HI].
     apply nmem_In in E. rewrite (fresh_all _ _ _ Heqb E) in HI. cbn. now rewrite HI.
-  - (* KClaim, same target *) rewrite Nat.eqb_refl. cbn [andb]. rewrite nmem_cons.
+  - (* KClaim, same target *) cbn [andb]. rewrite nmem_cons.
     destruct (Nat.eqb_spec r' r); cbn; auto.
-  - (* KClaim, other target *) apply Nat.eqb_neq in n0. rewrite n0. cbn. exact HI.
-  - (* KEnd, same target *) rewrite Nat.eqb_refl. cbn [andb]. rewrite nmem_nremove.
+  - (* KEnd, same target *) cbn [andb]. rewrite nmem_nremove.
     destruct (Nat.eqb_spec r' r); cbn; [now rewrite andb_false_r | now rewrite andb_true_r].
-  - (* KEnd, other target *) apply Nat.eqb_neq in n1. rewrite n1. cbn. exact HI.
+Qed.
+
+Lemma invC_run : forall tr s, run step init tr = Some s -> InvC tr s.
+Proof.
+  intros tr s H. apply (run_hinv0 step InvC init); auto.
+  - intros t r. reflexivity.
+  - intros pre s0 e s' _ HI Hs. eapply invC_step; eauto.
+Qed.
+
+Lemma track_no_end : forall t r post,
+  (forall e', In e' post -> e_k e' <> KEnd t r) -> fold_left (track t r) post true = true.
+Proof.
+  intros t r. induction post as [|x post IH]; intros Hno; cbn [fold_left]; auto.
+  assert (Hx : track t r true x = true).
+  { unfold track. destruct (e_k x) eqn:Ek; auto.
+    - destruct (Nat.eqb t t0 && Nat.eqb r r0); auto.
+    - destruct (Nat.eqb_spec t t0) as [<-|]; cbn; auto. destruct (Nat.eqb_spec r r0) as [<-|]; cbn; auto.
+      exfalso. apply (Hno x); cbn; auto. }
+  rewrite Hx. apply IH. intros e' He'. apply Hno. now right.
+Qed.
+
+(** the boolean of InvC, as a statement about the events of the trace *)
+Lemma open_claim_spec : forall t r tr,
+  open_claim t r tr = true <->
+  exists pre e post, tr = pre ++ e :: post /\ e_k e = KClaim t r /\
+                     forall e', In e' post -> e_k e' <> KEnd t r.
+Proof.
+  intros t r tr. split.
+  - induction tr as [|x l IH] using rev_ind; [discriminate|].
+    unfold open_claim. rewrite fold_left_app. cbn [fold_left]. fold (open_claim t r l).
+    unfold track. destruct (e_k x) eqn:Ek.
+    all: try (intros Ho; destruct (IH Ho) as (pre & e & post & -> & Hk & Hno);
+              exists pre, e, (post ++ [x]); split; [now rewrite <- app_assoc|split; [exact Hk|]];
+              intros e' He'; apply in_app_or in He'; destruct He' as [He'|[<-|[]]]; [now apply Hno|congruence]).
+    + (* KClaim *) destruct (Nat.eqb_spec t t0) as [<-|Hne]; cbn [andb].
+      * destruct (Nat.eqb_spec r r0) as [<-|Hne].
+        -- intros _. exists l, x, []. split; [reflexivity|split; [exact Ek|intros e' []]].
+        -- intros Ho; destruct (IH Ho) as (pre & e & post & -> & Hk & Hno).
+           exists pre, e, (post ++ [x]); split; [now rewrite <- app_assoc|split; [exact Hk|]].
+           intros e' He'; apply in_app_or in He'; destruct He' as [He'|[<-|[]]]; [now apply Hno|congruence].
+      * intros Ho; destruct (IH Ho) as (pre & e & post & -> & Hk & Hno).
+        exists pre, e, (post ++ [x]); split; [now rewrite <- app_assoc|split; [exact Hk|]].
+        intros e' He'; apply in_app_or in He'; destruct He' as [He'|[<-|[]]]; [now apply Hno|congruence].
+    + (* KEnd *) destruct (Nat.eqb_spec t t0) as [<-|Hne]; cbn [andb].
+      * destruct (Nat.eqb_spec r r0) as [<-|Hne]; [discriminate|].
+        intros Ho; destruct (IH Ho) as (pre & e & post & -> & Hk & Hno).
+        exists pre, e, (post ++ [x]); split; [now rewrite <- app_assoc|split; [exact Hk|]].
+        intros e' He'; apply in_app_or in He'; destruct He' as [He'|[<-|[]]]; [now apply Hno|congruence].
+      * intros Ho; destruct (IH Ho) as (pre & e & post & -> & Hk & Hno).
+        exists pre, e, (post ++ [x]); split; [now rewrite <- app_assoc|split; [exact Hk|]].
+        intros e' He'; apply in_app_or in He'; destruct He' as [He'|[<-|[]]]; [now apply Hno|congruence].
+  - intros (pre & e & post & -> & Hk & Hno). unfold open_claim. rewrite fold_left_app. cbn [fold_left].
+    assert (Ht : track t r (fold_left (track t r) pre false) e = true).
+    { unfold track. rewrite Hk. now rewrite !Nat.eqb_refl. }
+    rewrite Ht. now apply track_no_end.
+Qed.
+
+(** [inflight_spec]: in every reachable state the in-flight set of a target is
+    exactly {r | a KClaim t r occurred and no KEnd t r since} *)
+Theorem inflight_spec : forall tr s t x r,
+  run step init tr = Some s -> nget (targets s) t = Some x ->
+  (In r (t_inflight x) <->
+   exists pre e post, tr = pre ++ e :: post /\ e_k e = KClaim t r /\
+                      forall e', In e' post -> e_k e' <> KEnd t r).
+Proof.
+  intros tr s t x r Hrun Hx. rewrite <- open_claim_spec, <- nmem_In.
+  pose proof (invC_run _ _ Hrun t r) as HC. rewrite Hx in HC. rewrite HC. tauto.
 Qed.
